@@ -198,3 +198,17 @@ def run(ctx):
         if any(x[0] == 'call' and re.search(r'finalize$', x[1]) for x in src):
             okid = True
     ctx.ob('C17.3', fin, 'id-is-hash-of-stored-bytes', okid, 'artifact id = hex::encode(hasher.finalize())', line=enc[0].line if enc else fin.line)
+
+    # ---------------------------------------------------------------- C17.4
+    from .common import char_boundary_ops
+    ctx.rule('C17.4', 'a task cannot die on the output it forwards: in everything reachable from run_task / run_pipes_task / run_pty_task and the shell capture there is no byte-offset string operation that panics off a UTF-8 character boundary (String::truncate / split_off / insert / remove / drain / replace_range, str::split_at, str range indexing) unless the same function derives or tests the offset. A panic in the task body leaves the task without a terminal status frame.')
+    roots = [P.body(p).path for p in ('ripd::tasks::run_task', 'ripd::tasks::pipes::run_pipes_task', 'ripd::tasks::pty::run_pty_task', 'rip_tools::builtins::shell::capture_stream')]
+    par = P.reach_fns(roots)
+    scope = [P.fns[p] for p in sorted(par) if p in P.fns and P.fns[p].crate.startswith('rip') and P.fns[p].crate not in ('rip', 'rip_tui', 'rip_cli')]
+    ops = char_boundary_ops(P, scope)
+    witness = char_boundary_ops(P, [f for f in P.fns.values() if f.crate in ('rip', 'rip_tui')])
+    ctx.ob('C17.4', 'workspace', 'matcher-alive', len(witness) >= 1, 'the same matcher finds %d byte-offset string operation(s) in the terminal client crates (positive example); %d function(s) reachable from the task bodies scanned, %d operation(s) found there' % (len(witness), len(scope), len(ops)))
+    for (f, s_, g) in ops:
+        ctx.ob('C17.4', f, 'char-boundary:' + s_.name, g,
+               '%s on task output %s' % (s_.name, 'with the offset derived / tested in the same function' if g else
+                                         'with an UNCHECKED byte offset: a multi-byte character straddling it panics the task body — no terminal status frame'), line=s_.line)
